@@ -6,6 +6,7 @@ simulation, and in every mode at the end, the outcome must equal the outcome of 
 constructor from the abstract definition and simulated from the same seed; after every simulation the model's
 species and parameter dictionaries must still be what the history set them to."""
 import math
+import time
 
 import numpy as np
 from hypothesis import strategies as st
@@ -59,6 +60,9 @@ class Def:
         species = list(self.species) if order is None else [self.species[i] for i in order]
         return {"species": species, "x0": dict(self.x0), "params": dict(self.params),
                 "reactions": list(self.reactions), "rules": list(self.rules)}
+
+# every value from 1 to 2**64 - 1 is a seed (0 alone means "seed from the clock")
+BOUNDARY_SEEDS = [2 ** 32, 3 * 2 ** 32, 2 ** 40, 2 ** 48, 2 ** 53, 2 ** 63, 2 ** 64 - 2 ** 32, 2 ** 64 - 1, 2 ** 31, 2 ** 16]
 
 
 def fresh_model(D, order=None):
@@ -471,14 +475,21 @@ def _check(case):
         if order is not None:
             order = [i for i in order if i < len(D.species)]
             order += [i for i in range(len(D.species)) if i not in order]
+        slept = False
         for mode in case["final_modes"]:
             got = run_sim(mode, grid, seed, M=M)
             if got[0] == "ok" and not dicts_ok(res, M, D, dummy, "final"):
                 break
+            if mode in STOCH and seed in BOUNDARY_SEEDS and not slept:
+                slept = True
+                # a seed at a word boundary: were it (or a truncation of it) mistaken for "no seed", the generator would be
+                # seeded from the clock in whole seconds - the repetition is therefore made in another second
+                time.sleep(1.05)
+                res.label("boundary_seed_repeated_after_a_second")
             again = run_sim(mode, grid, seed, M=M)
             diff = same_outcome(again, got, exact=True)
             if diff is not None:
-                res.fail(("not_repeatable", mode), difference=diff)
+                res.fail(("not_repeatable", mode), difference=diff, seed=seed)
                 break
             perturb_generator(case.get("burn") or [["normal", 1], ["uniform", 1]])
             third = run_sim(mode, grid, seed, M=M)
@@ -682,7 +693,7 @@ def cases(draw, max_extra):
             draw(st.lists(st.sampled_from(["normal", "normal", "uniform", "exponential", "gamma", "erlang", "binomial",
                                            "randint"]), min_size=1, max_size=3, unique=True))]
     return {"kind": "history", "burn": burn, "start": {"species": start_species, "init": draw(st.booleans())}, "ops": ops,
-            "final_grid": grid, "final_seed": draw(st.integers(1, 2 ** 40)), "final_modes": final_modes, "perm": perm}
+            "final_grid": grid, "final_seed": draw(st.sampled_from(BOUNDARY_SEEDS)) if draw(st.sampled_from([False] * 79 + [True])) else draw(st.integers(1, 2 ** 40)), "final_modes": final_modes, "perm": perm}
 
 
 @st.composite
